@@ -37,6 +37,8 @@ func init() {
 			c.floor("AXISCMP", 0)
 			c.runNilReceiver("NILRECV", append(c.libPkgs()[:4:4], c.fixturePkg("u")), nil)
 			c.floor("NILRECV", 0)
+			c.runSearchAll("SEARCHALL", append(c.libPkgs()[:4:4], c.fixturePkg("s")), ff)
+			c.floor("SEARCHALL", 0)
 		},
 		SelfTest: []Mutation{
 			{Name: "single-neighbour fast path of KNN panics on the empty tree", File: "model3d/coord_tree.go",
